@@ -199,6 +199,26 @@ def gen_case(rnd):
         from vf.checks import c15
         for _ in range(g.rnd.randint(1, 3)):
             history.insert(g.rnd.randrange(len(history) + 1), ("!fail", c15.gen_fail(g, probe, rel)))
+    forced_probes = []
+    if g.pct(20):
+        # an analysis of an application p(s, b) / f(s, c) whose other arguments contribute nothing (a Bool symbol, a
+        # constant) comes first; then the analyses of the formulas around the shared term s are probed
+        cands = []
+        for s_ in subterms(probe):
+            try:
+                ts = reftype(s_)
+            except IllTyped:
+                continue
+            if not is_fun(ts):
+                cands.append((s_, ts))
+        if cands:
+            s_, ts = g.choice(cands)
+            other = g.choice([g.symbol(BOOL), ("BOOL_CONSTANT", (True,), ())])
+            ret = g.choice([BOOL, ts])
+            app_ = ("FUNCTION", ("pf_%s" % ("b" if ret == BOOL else "t"), ("Fun", ret, (ts, BOOL))), (s_, other))
+            svc = g.choice(["theory", "logic"])
+            history.insert(g.rnd.randrange(min(3, len(history)) + 1), (svc, app_, None))
+            forced_probes = [(n, x_, None) for n in ("theory", "logic") for x_ in (probe, s_)]
     try:
         t = reftype(probe)
     except IllTyped:
@@ -209,6 +229,7 @@ def gen_case(rnd):
     if subs:
         s0 = g.choice(subs)
         probes += [random_call(g, s0, forced=n) for n in ("theory", "size", "substitute", "get_types", "free_vars")]
+    probes += forced_probes
     oob = [g.choice(OOB)] if g.pct(30) else []
     return probe, history, probes, oob
 
